@@ -14,6 +14,7 @@ import Driver.IterSys
 import Matreex.Model.Convert
 import Matreex.Gen.Macros
 import Matreex.Model.Eq
+import Matreex.Model.Index
 import Matreex.Model.Effects
 import Driver.Fmt
 
@@ -215,7 +216,19 @@ def stepHist (w : World) (ws : List String) : Option (World × String) :=
   | ["eq", a, b] => do
     let a ← a.toNat?; let b ← b.toNat?
     let ma ← w.get a; let mb ← w.get b
-    pure (w, mStr (fun (v : Bool) => toString v) (ma.beq (· == ·) mb))
+    -- the element type's own `==`: a payload that starts with "nan" is equal to nothing, itself
+    -- included (like a floating-point NaN)
+    pure (w, mStr (fun (v : Bool) => toString v) (ma.beq (fun x y => x == y && !x.startsWith "nan") mb))
+  | ["poke", r, i, j, payload] => do
+    -- `*m.get_mut((i, j))? = element`
+    let r ← r.toNat?; let i ← i.toNat?; let j ← j.toNat?
+    let m ← w.get r
+    match m.getIdx i j with
+    | .error e => pure (w, faultStr e)
+    | .ok (.error e) => pure (w, "err " ++ e.name ++ " | " ++ stStr m)
+    | .ok (.ok k) =>
+      let m' := { m with data := m.data.setIfInBounds k payload }
+      pure (w.set r (some m'), "ok | " ++ stStr m')
   | ["display", r] => do
     let r ← r.toNat?
     let m ← w.get r
